@@ -19,7 +19,7 @@ def run(ctx):
         "fragments and to the product cannot reach an input."
     )
     r.not_decided = ["equality of the restored index when an input's own reference list holds duplicates (data-dependent)"]
-    assembly_write_set(ctx, "C07")
-    run_kernels(ctx, ["K16"], "C07")
-    getitem_rule(ctx, "C07.freshness.getitem")
-    ctor_rule(ctx, "C07.freshness.ctor")
+    ctx.guard(assembly_write_set, ctx, "C07")
+    run_kernels(ctx, ["K16", "K13"], "C07")
+    ctx.guard(getitem_rule, ctx, "C07.freshness.getitem")
+    ctx.guard(ctor_rule, ctx, "C07.freshness.ctor")
